@@ -1,7 +1,8 @@
 (* DriversInst.v — concrete instances of the generic machine of Drivers.v over
    the exact rationals: CG (persistent: all state on self), ISTA (stopping
-   quantity xupdate is a local of run), FISTA (the extrapolated point z AND
-   xupdate are locals of run, the momentum t is a field of self).
+   quantity xupdate is a local of run), FISTA (since 4fbea6d: step stores the extrapolated
+   point in self.z and run restarts from self.z when iiter > 0; only
+   xupdate is re-created, as inf, at every call of run).
    Transcribed from cls_basic.CG.setup/step/run and
    cls_sparsity.ISTA/FISTA.setup/step/run (real dtype, threshkind="soft",
    decay = ones, SOp = None, monitorres = False, alpha given). *)
@@ -53,11 +54,13 @@ Definition soft (th : Qc) (a : Qc) : Qc :=
 Definition norm1 (v : vec) : Qc := fold_right (fun a s => Qcabs1 a + s) 0 v.
 
 Record isP := { ix : vec; it : Qc; ii : nat; icost : list Qc }.
+Record fP := { px : vec; pt : Qc; pi : nat; pcost : list Qc; pz : option vec }.
 
 Section ISTA.
   Variables (A : mat) (ncols : nat) (y : vec) (alpha eps tol : Qc) (sq : Qc -> Qc).
   Definition thresh : Qc := eps * alpha * half.
   Definition is_setup (x0 : vec) : isP := {| ix := x0; it := 1; ii := 0; icost := [] |}.
+  Definition f_setup (x0 : vec) : fP := {| px := x0; pt := 1; pi := 0; pcost := []; pz := None |}.
 
   (* ISTA: locals = xupdate^2 (None = inf) *)
   Definition ista_step (pl : isP * option Qc) : isP * option Qc :=
@@ -87,8 +90,8 @@ Section ISTA.
     run ista_solver n (run ista_solver j p) = run ista_solver n p.
   Proof. apply run_split_local; [exact ista_step_blind|exact ista_ok_fresh]. Qed.
 
-  (* FISTA: locals = (z, xupdate^2); t lives on self *)
-  Definition fista_step (pl : isP * (vec * option Qc)) : isP * (vec * option Qc) :=
+  (* LEGACY (before 4fbea6d): FISTA with z a local of run; t lives on self *)
+  Definition fista_legacy_step (pl : isP * (vec * option Qc)) : isP * (vec * option Qc) :=
     let p := fst pl in let z := fst (snd pl) in
     let resz := vsub' y (mv QcR A z) in
     let grad := vscale' alpha (mvT QcR ncols A resz) in
@@ -100,11 +103,59 @@ Section ISTA.
     let r := vsub' y (mv QcR A x) in
     ({| ix := x; it := t'; ii := S (ii p); icost := icost p ++ [half * dot' r r + eps * norm1 x] |},
      (z', Some (dot' d d))).
-  Definition fista_solver : solver isP (vec * option Qc).
+  Definition fista_legacy_solver : solver isP (vec * option Qc).
   Proof.
-    refine {| step := fista_step; iiter := ii; ok := fun pl => upd_ok (snd (snd pl)); linit := fun p => (ix p, None) |}.
+    refine {| step := fista_legacy_step; iiter := ii; ok := fun pl => upd_ok (snd (snd pl)); linit := fun p => (ix p, None) |}.
     intros [p l]. reflexivity.
   Defined.
+  (* FISTA (current code).  Persistent: x, t, iiter, cost and self.z (None
+     until the first step; setup does not touch it, run ignores it at
+     iiter = 0).  Locals of run / arguments of step: (z, xupdate^2).
+       step(x, z): ... self.t = ...; z = x + ((told-1)/t)(x - xold); ...; self.z = z; return x, z, xupdate
+       run:  z = self.z if self.iiter > 0 and self.z is not None else x.copy(); xupdate = inf *)
+  Definition fista_step (pl : fP * (vec * option Qc)) : fP * (vec * option Qc) :=
+    let p := fst pl in let z := fst (snd pl) in
+    let resz := vsub' y (mv QcR A z) in
+    let grad := vscale' alpha (mvT QcR ncols A resz) in
+    let x := map (soft thresh) (vadd' z grad) in
+    let told := pt p in
+    let t' := (1 + sq (1 + Q2Qc 4 * told * told)) / Q2Qc 2 in
+    let d := vsub' x (px p) in
+    let z' := vadd' x (vscale' ((told - 1) / t') d) in
+    let r := vsub' y (mv QcR A x) in
+    ({| px := x; pt := t'; pi := S (pi p); pcost := pcost p ++ [half * dot' r r + eps * norm1 x]; pz := Some z' |},
+     (z', Some (dot' d d))).
+  Definition fista_z0 (p : fP) : vec :=
+    match pi p, pz p with S _, Some z => z | _, _ => px p end.
+  Definition fista_solver : solver fP (vec * option Qc).
+  Proof.
+    refine {| step := fista_step; iiter := pi; ok := fun pl => upd_ok (snd (snd pl)); linit := fun p => (fista_z0 p, None) |}.
+    intros [p l]. reflexivity.
+  Defined.
+
+  (* wherever the loop is, the threaded z is what re-entry reads from self *)
+  Definition fista_inv (pl : fP * (vec * option Qc)) : Prop := fst (snd pl) = fista_z0 (fst pl).
+  Lemma fista_inv_enter p : fista_inv (enter fista_solver p).
+  Proof. reflexivity. Qed.
+  Lemma fista_inv_step pl : fista_inv pl -> fista_inv (step fista_solver pl).
+  Proof. intros _. reflexivity. Qed.
+  Lemma fista_resume pl : fista_inv pl -> step fista_solver pl = step fista_solver (enter fista_solver (fst pl)).
+  Proof. destruct pl as [p [z u]]. unfold fista_inv. cbn [fst snd]. intros ->. reflexivity. Qed.
+  Lemma fista_ok_fresh p : ok fista_solver (enter fista_solver p) = true.
+  Proof. reflexivity. Qed.
+
+  (* instalments of FISTA = one run (when the earlier instalment used up its budget) *)
+  Theorem fista_run_split j n p : (j <= n)%nat -> ok fista_solver (runL fista_solver j (enter fista_solver p)) = true ->
+    run fista_solver n (run fista_solver j p) = run fista_solver n p.
+  Proof. apply (run_split_resume fista_solver fista_inv fista_inv_enter fista_inv_step fista_resume fista_ok_fresh). Qed.
+
+  (* all mixed manual driving programs: Step threads (x, z); after Run the caller reads z = solver.z *)
+  Theorem fista_prog_then_run N prog p : safeL fista_solver N prog (enter fista_solver p) ->
+    run fista_solver N (fst (execL fista_solver prog (enter fista_solver p))) = run fista_solver N p.
+  Proof.
+    intros H. apply (progL_then_run fista_solver fista_inv fista_inv_enter fista_inv_step fista_resume fista_ok_fresh);
+      [apply fista_inv_enter|apply fista_ok_fresh|exact H].
+  Qed.
 End ISTA.
 
 (* Newton square root on Qc, rounded to 2^-64 at every iteration (execution
@@ -130,36 +181,39 @@ Example cg_split_example :
   obs_cg (run S0 2 (run S0 1 p)) = obs_cg (run S0 2 p) /\ ci (run S0 2 p) = 2%nat /\ qv (cx (run S0 2 p)) = [4 # 5; 7 # 5]%Q.
 Proof. vm_compute. repeat split; reflexivity. Qed.
 
-(* FISTA: one run of 3 iterations differs from 2 + 1 *)
+(* FISTA (current): instalments, and mixed Step / Run driving, equal one run *)
+Definition obs_f (p : fP) := (qv (px p), this (pt p), pi p, qv (pcost p)).
 Definition fS := fista_solver A2 2 y2 (Q2Qc (1 # 8)) (Q2Qc (1 # 10)) 0 nsqrt.
-Definition fp0 := is_setup x02.
-Theorem fista_run_split_refuted_witness :
-  qv (ix (run fS (2 + 1) (run fS 2 fp0))) <> qv (ix (run fS (2 + 1) fp0)) /\
-  ii (run fS (2 + 1) (run fS 2 fp0)) = ii (run fS (2 + 1) fp0).
-Proof. split; [vm_compute; discriminate|vm_compute; reflexivity]. Qed.
-
-(* ... while a split after the first iteration is harmless (t_0 = 1) *)
-Example fista_split_at_one_ok : obs_is (run fS 3 (run fS 1 fp0)) = obs_is (run fS 3 fp0).
-Proof. vm_compute. reflexivity. Qed.
+Definition fp0 := f_setup x02.
+Example fista_split_example :
+  ok fS (runL fS 2 (enter fS fp0)) = true /\ obs_f (run fS (2 + 1) (run fS 2 fp0)) = obs_f (run fS (2 + 1) fp0) /\
+  pi (run fS 3 fp0) = 3%nat /\ qv (px (run fS 3 fp0)) <> qv (px (run fS 2 fp0)).
+Proof. vm_compute. repeat split; try reflexivity. discriminate. Qed.
+Example fista_mixed_example :
+  safeL fS 4 [Step; Step; Run 3; Step] (enter fS fp0) /\
+  obs_f (fst (execL fS [Step; Step; Run 3; Step] (enter fS fp0))) = obs_f (run fS 4 fp0).
+Proof. vm_compute. repeat split; try reflexivity; repeat constructor. Qed.
 
 (* ISTA: hypotheses of ista_run_split are satisfiable (budget-ended first
    instalment), and the conclusion fails after a tolerance stop *)
+Definition ip0 := is_setup x02.
 Definition iS (tol : Qc) := ista_solver A2 2 y2 (Q2Qc (1 # 8)) (Q2Qc (1 # 10)) tol.
 Example ista_split_example :
-  ok (iS 0) (runL (iS 0) 2 (enter (iS 0) fp0)) = true /\ obs_is (run (iS 0) 4 (run (iS 0) 2 fp0)) = obs_is (run (iS 0) 4 fp0) /\
-  ii (run (iS 0) 4 fp0) = 4%nat.
+  ok (iS 0) (runL (iS 0) 2 (enter (iS 0) ip0)) = true /\ obs_is (run (iS 0) 4 (run (iS 0) 2 ip0)) = obs_is (run (iS 0) 4 ip0) /\
+  ii (run (iS 0) 4 ip0) = 4%nat.
 Proof. vm_compute. repeat split; reflexivity. Qed.
 Theorem ista_resume_after_tol_stop_refuted :
   let S0 := iS (Q2Qc 10) in
-  ii (run S0 4 fp0) = 1%nat /\ ii (run S0 4 (run S0 3 fp0)) = 2%nat.
+  ii (run S0 4 ip0) = 1%nat /\ ii (run S0 4 (run S0 3 ip0)) = 2%nat.
 Proof. vm_compute. split; reflexivity. Qed.
 
-(* the statement "run (j+k) after run j = run (j+k)" is false of FISTA *)
-Theorem fista_run_split_refuted :
-  exists (A : mat) (ncols : nat) (y x0 : vec) (alpha eps tol : Qc) (sq : Qc -> Qc) (j k : nat),
-    let S0 := fista_solver A ncols y alpha eps tol sq in
-    qv (ix (run S0 (j + k) (run S0 j (is_setup x0)))) <> qv (ix (run S0 (j + k) (is_setup x0))).
-Proof.
-  exists A2, 2%nat, y2, x02, (Q2Qc (1 # 8)), (Q2Qc (1 # 10)), 0, nsqrt, 2%nat, 1%nat.
-  exact (proj1 fista_run_split_refuted_witness).
-Qed.
+(* ------------------------------------------------------------------ *)
+(* Legacy: the defect repaired by 4fbea6d, kept as a record.  With z a local
+   of run (and t on self) instalments differ from one run. *)
+Section Legacy.
+  Definition fLS := fista_legacy_solver A2 2 y2 (Q2Qc (1 # 8)) (Q2Qc (1 # 10)) 0 nsqrt.
+  Theorem fista_legacy_run_split_refuted :
+    qv (ix (run fLS (2 + 1) (run fLS 2 ip0))) <> qv (ix (run fLS (2 + 1) ip0)) /\
+    ii (run fLS (2 + 1) (run fLS 2 ip0)) = ii (run fLS (2 + 1) ip0).
+  Proof. split; [vm_compute; discriminate|vm_compute; reflexivity]. Qed.
+End Legacy.
